@@ -47,11 +47,11 @@ type Op struct {
 }
 
 type Case struct {
-	ErrStyle string `json:"err_style,omitempty"` // how the storage words its own refusals (vkit.Store.refuse)
-	Router  string            `json:"router"`
-	SignAlg string            `json:"sign_alg"`
-	Clients []vkit.ClientSpec `json:"clients"`
-	Ops     []Op              `json:"ops"`
+	ErrStyle string            `json:"err_style,omitempty"` // how the storage words its own refusals (vkit.Store.refuse)
+	Router   string            `json:"router"`
+	SignAlg  string            `json:"sign_alg"`
+	Clients  []vkit.ClientSpec `json:"clients"`
+	Ops      []Op              `json:"ops"`
 }
 
 const (
@@ -643,6 +643,7 @@ func (e *exec) present(o Op, as, owner *vkit.ClientSpec) (vkit.Cred, wire) {
 		// valid: signed by the key registered for the named client under the named key id (audience and validity are always right here)
 		w.assertValid = as.AuthMethod == "private_key_jwt" && signedWith != "" && as.Keys[signedKID] == signedWith
 		w.bodyID = cr.BodyID
+		w.assertKey = signedKID + "/" + signedWith
 	case "none":
 		w.bodyID = cr.ClientID
 		if cr.BodyID != "" {
@@ -829,16 +830,15 @@ func (e *exec) exchange(i int, o Op) {
 	okShape := resp.Success() && resp.Str("access_token") != "" && resp.Str("id_token") != ""
 
 	ownerKind := clientKind(owner)
-	desc := fmt.Sprintf("op %d: code of %s (%s, pkce=%s, redirect %s) presented by %+v redirect=%q(missing=%v) verifier=%q", i, owner.ID, ownerKind,
+	desc := fmt.Sprintf("op %d: code of %s (%s, pkce=%s, redirect %s) presented by %s redirect=%q(missing=%v) verifier=%q", i, owner.ID, ownerKind,
 		methodOf(rq), reqRedirect, w, a.redirect, a.noRedirect, a.verifier)
 	if fired != nil {
-		desc += fmt.Sprintf(" [storage fault %q in %s, storage call %d of this request]", o.Fault.Kind, fired.Method, fired.Call)
+		desc += fmt.Sprintf(" (storage fault %q in %s, call %d of this request)", o.Fault.Kind, fired.Method, fired.Call)
 	}
 	if a.code != nil && a.code.faultedOK {
-		desc += " [this code already yielded tokens in a request that hit a storage fault]"
-	}
-	if rq != nil && rq.unsure {
-		desc += " [an earlier exchange of a code of this request hit a storage fault and answered without tokens]"
+		desc += " (this code already yielded tokens in a request that hit a storage fault)"
+	} else if rq != nil && rq.unsure {
+		desc += " (an earlier exchange for this request hit a storage fault and answered without tokens)"
 	}
 
 	e.res.Label("as:" + map[bool]string{true: "owner", false: "other-client"}[as == owner])
@@ -1119,13 +1119,14 @@ func run(c Case) (res *vkit.Result) {
 
 var prop = vkit.Prop[Case]{
 	ID: "C04",
-	Rule: "cases = router (provider | legacy) x id-token alg x 3-5 registered clients (client_secret_basic, client_secret_post, private_key_jwt - half of them with a secret the storage also holds -, public native / user-agent; a redirect URI shared on purpose, some registered URIs with a query, an empty path, a trailing slash or a port; opaque or JWT access tokens) " +
+	Rule: "cases = router (provider | legacy) x id-token alg x 3-5 registered clients (client_secret_basic, client_secret_post, private_key_jwt - half of them with a secret the storage also holds; each with its own key, whose key id is either the client's own or one that several clients use for their different keys -, public native / user-agent; a redirect URI shared on purpose, some registered URIs with a query, an empty path, a trailing slash or a port; opaque or JWT access tokens) " +
 		"x history of 3-40 ops: authorize(client, registered uri, pkce none|plain|plain-without-method|S256, verifier from a pool of 4, scopes, nonce), login(req, user), callback(req), " +
-		"exchange(code incl. replays / mangled / garbage, as owner or another client, presentation right|wrong secret|id only|other method|assertion with unregistered key|none|stored secret of a private_key_jwt client via Basic / POST instead of an assertion, extra body client_id, " +
-		"redirect same|other registered|caller's|missing|12 near-miss derivations of the request's URI (added query / fragment / userinfo / default port / extra or .. segment, trailing slash toggled, host or scheme upper-cased, percent-encoded path letter, query reordered / dropped; all must be refused), verifier right|wrong|missing|of another request|the challenge itself, extra nonce/scope parameters); " +
+		"exchange(code incl. replays / mangled / garbage, as owner or another client, presentation right|wrong secret|id only|other method|assertion with unregistered key|assertion naming the client and its key id but signed with the registered key of another private_key_jwt client (preferably one with the same key id that authenticated earlier in the history)|none|stored secret of a private_key_jwt client via Basic / POST instead of an assertion, extra body client_id, " +
+		"redirect same|other registered|caller's|missing|12 near-miss derivations of the request's URI (added query / fragment / userinfo / default port / extra or .. segment, trailing slash toggled, host or scheme upper-cased, percent-encoded path letter, query reordered / dropped; all must be refused), verifier right|wrong|missing|of another request|the challenge itself, extra nonce/scope parameters; about every 5th exchange and some callbacks with ONE storage fault in that very request: every call of a method on the path or the k-th storage call, kind error|deadline|partial (effect happens, error reported)|oidc|oidc-wrapped); " +
 		"oracle = code state machine written from the statement, two-sided; grey (asserts nothing on accept/refuse, still checks claims of issued tokens): mixed identity or non-registered method (incl. a private_key_jwt client presenting the secret its storage accepts: a genuine credential of that very client, whether the method may be used is property C05's subject; redeeming another client's code that way is must-reject), verifier without challenge, " +
-		"a second code of a request whose other code was exchanged; non-trivial = the history contains an exchange that yields tokens and one the model refuses for a reason other than an unknown code; " +
-		"distinct = (router, set of owner-kind/pkce of successful exchanges, set of refusal-reason combinations per owner kind)",
+		"a second code of a request whose other code was exchanged; an otherwise valid exchange in which a storage fault fired (may fail: C10's subject) and, after such a request answered without tokens, later otherwise valid exchanges of that request's codes (the storage may or may not have dropped it) - " +
+		"what stays asserted under faults: a must-reject yields no tokens, and a code that yielded tokens (faulted request or not) never does again; non-trivial = the history contains an exchange that yields tokens and one the model refuses for a reason other than an unknown code; " +
+		"distinct = (router, set of owner-kind/pkce of successful exchanges, set of refusal-reason combinations per owner kind, set of faulted-method:outcome of otherwise valid exchanges)",
 	Gen: genCase,
 	Run: run,
 }
